@@ -46,7 +46,9 @@ HRec(prog, nc, h) ==
          /\ Assert((l = <<>>) = (f = <<>>) /\ (l # <<>> => l[1] = f[1] /\ l[2] >= f[2] /\ l = al[1]), <<"longest vs first", h>>)
      THEN IF WithAt
           THEN base @@ [atf |-> [p \in 1..(Len(h)+1) |-> ToOff(h, FindP(prog, nc, h, p, FALSE))],
-                        atl |-> [p \in 1..(Len(h)+1) |-> ToOff(h, FindP(prog, nc, h, p, TRUE))]]
+                        atl |-> [p \in 1..(Len(h)+1) |-> ToOff(h, FindP(prog, nc, h, p, TRUE))],
+                        anc |-> [p \in 1..(Len(h)+1) |-> ToOff(h, AnchoredP(prog, nc, h, p))],
+                        ends |-> [p \in 1..(Len(h)+1) |-> SetToSortSeq({Off(h, e) : e \in EndsP(prog, h, p)}, <)]]
           ELSE base
      ELSE base
 
